@@ -6,6 +6,7 @@
 //!   progs = per-thread programs separated by '/', each a comma list of
 //!             C<hexkey>   client.count(key, <index of the op>)        (through the shared client)
 //!             E<hex>      emit of the given string on the shared sink (MetricSink::emit)
+//!             G<hexkey> / g<hex>   the same two calls made by a destructor while the thread unwinds from a panic
 //!             F           client.flush()
 //!             f           MetricSink::flush on the shared sink
 //!   plan  = seq : comma list of steps  t  |  t+u[+v..]   (thread t performs its next op; with +u.. thread t is
@@ -164,6 +165,30 @@ fn do_op(op: &str, idx: usize, client: &StatsdClient, tee: &Arc<Tee>) -> char {
         "E" => {
             let m = String::from_utf8(unhex(&op[1..])).expect("utf8 metric");
             tee.emit(&m).is_ok()
+        }
+        "G" | "g" => {
+            // the same call made by a destructor that runs while this thread unwinds from a panic (caught right after):
+            // a scope guard reporting "request finished" - a call like any other
+            let text = String::from_utf8(unhex(&op[1..])).expect("utf8");
+            let out = Cell::new(false);
+            let f = || {
+                if &op[..1] == "G" {
+                    client.count(text.as_str(), idx as i64).is_ok()
+                } else {
+                    tee.emit(&text).is_ok()
+                }
+            };
+            struct Guard<'a>(&'a dyn Fn() -> bool, &'a Cell<bool>);
+            impl<'a> Drop for Guard<'a> {
+                fn drop(&mut self) {
+                    self.1.set((self.0)());
+                }
+            }
+            let _ = std::panic::catch_unwind(std::panic::AssertUnwindSafe(|| {
+                let _g = Guard(&f, &out);
+                panic!("unwinding with a metrics guard alive");
+            }));
+            out.get()
         }
         "F" => client.flush().is_ok(),
         "f" => tee.flush().is_ok(),
